@@ -32,7 +32,7 @@ def parseExc : String → Option Exc
 def parseMeth (r : String × String × Bool × List String × Bool) : Option Meth :=
   let (name, front, guard, srcs, zprobe) := r
   match srcs.mapM parseSrc, (if front = "" then some none else (parseFFun front).map some) with
-  | some ss, some f => some ⟨name, f, guard, ss, zprobe⟩
+  | some ss, some f => some ⟨name, f, guard, guard && Gen.C16.guardRaisesWhenGone, ss, zprobe⟩
   | _, _ => none
 
 /-- configuration of the sequential model as extracted from the current source -/
